@@ -51,6 +51,28 @@ class Findings:
         return None
 
 
+class WorkerError:
+    """An exception that escaped a worker function: the oracle / harness code itself failed on what the library did."""
+
+    def __init__(self, item, tb):
+        self.item, self.tb = item, tb
+
+
+class WorkerFailures(Exception):
+    pass
+
+
+class _Safe:
+    def __init__(self, fn):
+        self.fn = fn
+
+    def __call__(self, x):
+        try:
+            return self.fn(x)
+        except BaseException as e:  # noqa
+            return WorkerError(repr(x)[:2000], traceback.format_exc()[-3000:])
+
+
 class Ctx:
     def __init__(self, prop: str, tier: str, seed: int):
         self.prop, self.tier, self.seed = prop, tier, seed
@@ -120,6 +142,19 @@ class Ctx:
         items = list(items)
         if not items:
             return []
+        fn = _Safe(fn)
+        res = self._pmap(fn, items, chunk, recycle)
+        errs = [r for r in res if isinstance(r, WorkerError)]
+        if errs:
+            # Not a verdict of an oracle, but not silence either: on the unchanged tree no worker raises, so an exception
+            # escaping the checking code means the library handed it something it could not even read.
+            for e in errs[:20]:
+                last = e.tb.strip().splitlines()[-1][:200]
+                self.violation(dict(kind="checker_exception", exc=last.split(":")[0]), dict(item=e.item), e.tb)
+            raise WorkerFailures(f"{len(errs)} worker exception(s), first: {errs[0].tb.strip().splitlines()[-1][:300]}")
+        return res
+
+    def _pmap(self, fn, items, chunk, recycle):
         if NPROC <= 1 or len(items) < 8:
             return [fn(x) for x in items]
         if chunk is None:
